@@ -9,7 +9,7 @@
    C18_file_roundtrip_partial below and the file layer is covered by the correspondence run.
    [idl_safe] / [safe_name] are the hypotheses the proofs force; each one that the pinned code
    violates has a refutation witness (the C18_refuted theorems), replayed on the implementation by qv C18. *)
-From QV Require Import Sig Peg SigParse Idl IdlProofs.
+From QV Require Import Sig Peg SigParse Idl IdlProofs IdlFile.
 From Coq Require Import NArith.
 Local Open Scope string_scope.
 
@@ -71,21 +71,63 @@ Proof. exact method_roundtrip. Qed.
 Print Assumptions C18_method_roundtrip.
 
 (* ---------- layer 3: whole files ---------- *)
-(* Full statement (not proved):
-     forall pkg objs, is_iident pkg -> safe_objects objs -> roundtrip_ok pkg objs = true
-   where safe_objects asks: interface, action and member names are identifiers; uids are distinct,
-   non-zero (except the method registerEvent) and below 2^32; every signature is the printed form of
-   a well-formed type, methods' parameters and all signals/properties are tuples; every type is
-   idl_safe; two structs with the same name are the same struct and no struct is named like an
-   interface.
-   Missing composition: (a) TypeSet registration is the identity on names and collects exactly the
-   structs of the objects when names do not collide (register / resolve_collision); (b) Kleene over
-   the action lines and struct blocks of gen_idl (the per-line theorems above are its steps);
-   (c) scope_of of the parsed declarations satisfies scope_has for every type, and sig_fuel is
-   enough for non-self-referential scopes; (d) nodifyActionList's maps hold the actions in order.
-   The file layer is covered by the correspondence run (generated packages through the real
-   GenerateIDL/ParseIDL and through gen_idl/parse_idl).  What is proved of it here is a concrete
-   package evaluated inside Coq: *)
+(* The hypotheses, stated on meta-objects given by their types (o_of prints the signatures):
+   package_ok E P, for a declaration environment E (struct name -> members):
+     - every interface, action and parameter name is an identifier (a letter or underscore, then letters, digits, underscores); parameter
+       names are those CleanVarName produces (or P0, P1, ... when MetaMethod.Parameters is absent);
+     - interface names are pairwise distinct and no struct is named like an interface;
+     - within an interface the method uids are pairwise distinct, so are the signal uids and the
+       property uids; uids are below 2^32 and non-zero (except the method registerEvent);
+     - methods take a tuple of parameters, signals and properties have tuple-shaped signatures;
+     - every parameter, return (unless void), signal and property type is well formed, idl_safe (no
+       void or empty tuple inside; struct names not beginning with a basic type name, Map<, Tuple<,
+       Vec<; member names identifiers) and env_ok E: every struct inside it is the one E declares
+       under that name — no two different structs share a name;
+   env_safe E: the structs of E are themselves idl_safe; is_pkg_name pkg.
+   Then GenerateIDL succeeds and ParseIDL gives back, in order, the same interfaces with the same
+   action ids, names and parameter / return / signal / property signatures — struct and member
+   names included (norm_o only records, as MetaMethod.Parameters, the parameter names written). *)
+Theorem C18_file_roundtrip : forall E pkg P, package_ok E P -> env_safe E -> is_pkg_name pkg = true ->
+  exists text, gen_idl pkg (map o_of P) = Some text /\ parse_idl text = IOk (map norm_o P).
+Proof. exact idl_file_roundtrip. Qed.
+Print Assumptions C18_file_roundtrip.
+Theorem C18_file_roundtrip_ok : forall E pkg P, package_ok E P -> env_safe E -> is_pkg_name pkg = true ->
+  roundtrip_ok pkg (map o_of P) = true.
+Proof. exact idl_roundtrip_ok. Qed.
+Print Assumptions C18_file_roundtrip_ok.
+(* the four pieces of the composition, as theorems of their own *)
+(* (a) registration is the identity on names and collects the structs, without name collisions *)
+Theorem C18_registration_identity : forall E inames t s,
+  set_ok E inames s -> env_ok E t -> (forall d, In d (structs_of t) -> ~ In (fst d) inames) ->
+  exists ext, register t s = (t, s ++ ext)%list /\ set_ok E inames (s ++ ext)%list /\
+              (forall d, In d (structs_of t) -> lookup (fst d) (s ++ ext)%list <> None).
+Proof. exact register_ok. Qed.
+Print Assumptions C18_registration_identity.
+(* (b) the generated text goes through the package parser block by block *)
+Theorem C18_text_parses : forall E pkg P S, package_ok E P -> env_safe E -> is_pkg_name pkg = true ->
+  set_ok E (map to_name P) S ->
+  fst (parse_package (package_text pkg P S)) = Ok (NVal (VPkg pkg (decl_vals E P S))) nl.
+Proof. exact parse_package_ok. Qed.
+Print Assumptions C18_text_parses.
+(* (c) the scope of the parsed declarations declares every struct of every registered type, and the
+   fuel of the signature resolution exceeds the depth of every such type *)
+Theorem C18_scope_has : forall E P S t, package_ok E P -> set_ok E (map to_name P) S ->
+  env_ok E t -> covers S t -> scope_has (scope_of (decl_vals E P S) []) t.
+Proof. exact scope_has_covered. Qed.
+Print Assumptions C18_scope_has.
+Theorem C18_fuel_adequate : forall E P S, package_ok E P -> env_safe E -> set_ok E (map to_name P) S ->
+  forall t i, env_ok E t -> covers S t -> idl_depth t <= ity_depth i ->
+  ty_depth t < sig_fuel (scope_of (decl_vals E P S) []) i.
+Proof. exact depth_below_fuel. Qed.
+Print Assumptions C18_fuel_adequate.
+(* (d) nodifyActionList keeps distinct, non-zero ids as they are, in order *)
+Theorem C18_action_ids_kept : forall E o, object_ok E o ->
+  inodify_action_list (action_nodes o) =
+  NVal (VItf "" (map mentry (to_methods o)) (map gentry (to_signals o)) (map gentry (to_props o))).
+Proof. exact action_list_object. Qed.
+Print Assumptions C18_action_ids_kept.
+
+(* the earlier, concrete instance (kept): one package evaluated inside Coq *)
 Definition ex_objs : list mobject :=
   [ {| mo_name := "Motion";
        mo_methods := [ {| mm_uid := 100; mm_name := "moveTo"; mm_params := "((fff)<Pose,x,y,theta>[(fff)<Pose,x,y,theta>])";
@@ -144,6 +186,40 @@ interface I
 end" = ICrash.
 Proof. vm_compute. reflexivity. Qed.
 Print Assumptions C18_refuted_self_referential_struct_crash.
+
+(* the hypotheses of C18_file_roundtrip are met by a package with shared, nested and
+   template-named structs, named and unnamed parameters *)
+Definition ex_pose := TStruct "Pose" [("x", TS SF32); ("y", TS SF32); ("theta", TS SF32)].
+Definition ex_entry := TStruct "Entry<T>" [("text", TS SStr); ("level", TS SU32)].
+Definition ex_env : env := [("Pose", [("x", TS SF32); ("y", TS SF32); ("theta", TS SF32)]); ("Entry<T>", [("text", TS SStr); ("level", TS SU32)])].
+Definition ex_typed : list tobject :=
+  [ {| to_name := "Motion";
+       to_methods := [ {| tm_uid := 100; tm_name := "moveTo"; tm_params := [ex_pose; TList ex_pose]; tm_ret := TS SBool; tm_pnames := Some ["target"; "via"] |};
+                       {| tm_uid := 101; tm_name := "stop"; tm_params := []; tm_ret := TS SVoid; tm_pnames := None |} ];
+       to_signals := [ {| tg_uid := 102; tg_name := "moved"; tg_params := [TMap (TS SStr) ex_pose] |} ];
+       to_props := [ {| tg_uid := 103; tg_name := "speed"; tg_params := [TS SF32] |} ] |};
+    {| to_name := "Log"; to_methods := [ {| tm_uid := 5; tm_name := "log"; tm_params := [ex_entry; TS SValue]; tm_ret := TS SObject; tm_pnames := None |} ];
+       to_signals := []; to_props := [] |} ].
+Ltac solve_type_ok := split; [reflexivity|split; [reflexivity|unfold env_ok; cbn; repeat constructor]].
+Ltac solve_types := repeat (apply Forall_cons; [solve_type_ok|]); apply Forall_nil.
+Ltac solve_method := constructor; [solve_types|(left; reflexivity) || (right; solve_type_ok)|reflexivity|reflexivity|left; discriminate|cbn; repeat constructor].
+Ltac solve_signal := constructor; [solve_types|reflexivity|reflexivity|discriminate].
+Ltac solve_nodup := repeat (apply NoDup_cons; [cbn; intuition discriminate|]); apply NoDup_nil.
+Example C18_file_nonvacuous : package_ok ex_env ex_typed /\ env_safe ex_env /\ is_pkg_name "robot" = true /\ map o_of ex_typed = ex_objs.
+Proof.
+  split; [|split; [|split; reflexivity]].
+  - constructor; [|solve_nodup].
+    apply Forall_cons; [|apply Forall_cons; [|apply Forall_nil]].
+    + constructor; [reflexivity|reflexivity| | | |solve_nodup|solve_nodup|solve_nodup].
+      * apply Forall_cons; [solve_method|apply Forall_cons; [solve_method|apply Forall_nil]].
+      * apply Forall_cons; [solve_signal|apply Forall_nil].
+      * apply Forall_cons; [solve_signal|apply Forall_nil].
+    + constructor; [reflexivity|reflexivity| | | |solve_nodup|solve_nodup|solve_nodup].
+      * apply Forall_cons; [solve_method|apply Forall_nil].
+      * apply Forall_nil.
+      * apply Forall_nil.
+  - repeat constructor.
+Qed.
 
 Example C18_nonvacuous :
   idl_safe (TMap (TS SStr) (TList (TStruct "Pose" [("x", TS SF32)]))) = true /\
